@@ -2127,6 +2127,35 @@ def extra_whole_text_locations(eng, tier, seed):
         checked += 1
         if got.get("prints") != [(before.count("\n") + 1, "2")]:
             violations.append({"name": "native/print-line", "concrete": {"text": text}, "detail": repr(got)})
+    # @print without an expression is delivered exactly once as well (empty text), whatever follows on the line
+    for before in ["", "\n", "uint8 a\n"]:
+        for tail in ["", " ", "  # c", "\t"]:
+            text = before + "@print" + tail + "\n@sealed\n"
+            got = _read_text(text)
+            checked += 1
+            if got.get("prints") != [(before.count("\n") + 1, "")]:
+                violations.append({"name": "native/print-line", "concrete": {"text": text}, "detail": repr(got)})
+    # the line of a syntax error counts line feeds only: characters that str.splitlines() treats as line boundaries (form
+    # feed, vertical tab, the ASCII separators, NEL, LS, PS) are ordinary comment characters in DSDL
+    for odd in ["\x0b", "\x0c", "\x1c", "\x1d", "\x1e", "\x85", "\u2028", "\u2029"]:
+        for k in (1, 2):
+            text = ("# c%s c\n" % odd) * k + "uint8 a\n%%%\n@sealed\n"
+            got = _read_text(text)
+            checked += 1
+            if got.get("error") == "DSDLSyntaxError" and got.get("line") != k + 2:
+                violations.append({"name": "native/syntax-error-line", "concrete": {"text": text},
+                                   "detail": "error on line %d, reported line %r" % (k + 2, got.get("line"))})
+    # an error in a dependency (any depth) carries the dependency's path and the line inside the dependency
+    for depth in (1, 2):
+        deps = [("ns/D%d.1.0.dsdl" % j, ("\n" * j) + ("ns.D%d.1.0 x\n@sealed\n" % (j + 1) if j < depth else "uint8 X = 1000\n@sealed\n"))
+                for j in range(1, depth + 1)]
+        text = "\n\n\n\nns.D1.1.0 d\n@sealed\n"
+        got = _read_text(text, deps=deps)
+        checked += 1
+        want_path, want_line = "ns/D%d.1.0.dsdl" % depth, depth + 1
+        if got.get("error") == "InvalidConstantValueError" and (got.get("path") != want_path or got.get("line") != want_line):
+            violations.append({"name": "native/dependency-error-location", "concrete": {"text": text, "deps": deps},
+                               "detail": "want %s:%d, got %r:%r" % (want_path, want_line, got.get("path"), got.get("line"))})
     # F3: @print in a dependency must be attributed to the dependency
     import pathlib
     import shutil
